@@ -154,11 +154,13 @@ class Part:
         exhaustive=False,
         procs=None,
         strategy_thorough=None,
+        fuzz=None,
     ):
         self.name = name
         self.check = check
         self.strategy = strategy
         self.strategy_thorough = strategy_thorough  # deeper bounds (sizes, lengths) for the thorough tier
+        self.fuzz = fuzz or {}  # {"thorough": executions per process} -> coverage-guided campaign (vf/fuzz.py)
         self.enumerate = enumerate
         self.budget = budget or {"quick": 200, "thorough": 2000}
         self.shrink_budget = shrink_budget
@@ -350,6 +352,57 @@ def merge(a, b):
 
 
 # --------------------------------------------------------------------------------------
+# coverage-guided tier (atheris), thorough only
+# --------------------------------------------------------------------------------------
+def run_fuzz(prop, parts, tier, seed, nproc, scale):
+    """-> (evidence dict, list of (sig, msg, case, partname), notes)"""
+    import shutil
+    import subprocess
+    import tempfile
+
+    jobs = [(p, max(1, int(p.fuzz[tier] * scale))) for p in parts if p.strategy is not None and p.fuzz.get(tier)]
+    if not jobs:
+        return None, [], []
+    try:
+        import atheris  # noqa: F401  pylint: disable=unused-import,import-outside-toplevel
+    except Exception:  # pylint: disable=broad-except
+        return {"skipped": "atheris not importable (setup_cmd installs it into /verif/.deps)"}, [], ["fuzz tier skipped: atheris missing"]
+    root = tempfile.mkdtemp(prefix="vf-fuzz-")
+    ev, found, notes = {}, [], []
+    try:
+        procs = []
+        per = max(1, nproc // len(jobs))
+        for p, runs in jobs:
+            for k in range(per):
+                out = os.path.join(root, f"{p.name}-{k}")
+                cmd = [sys.executable, "-W", "ignore", "-m", "vf.fuzz", prop, p.name, "--runs", str(runs), "--seed", str(seed * 100 + k + 1), "--out", out]
+                procs.append((p, out, subprocess.Popen(cmd, stdout=subprocess.DEVNULL, stderr=subprocess.DEVNULL, cwd=HERE)))
+        for p, out, pr in procs:
+            pr.wait()
+            st = {}
+            try:
+                with open(os.path.join(out, "stats.json")) as f:
+                    st = json.load(f)
+            except Exception:  # pylint: disable=broad-except
+                notes.append(f"fuzz {p.name}: no stats (exit {pr.returncode})")
+            e = ev.setdefault(p.name, {"processes": 0, "executions": 0, "distinct_nontrivial_per_process_sum": 0, "corpus_files": 0})
+            e["processes"] += 1
+            e["executions"] += st.get("executions", 0)
+            e["distinct_nontrivial_per_process_sum"] += st.get("distinct_nontrivial", 0)
+            e["corpus_files"] += st.get("corpus_files", 0)
+            vf_ = os.path.join(out, "violation.json")
+            if os.path.exists(vf_):
+                with open(vf_) as f:
+                    v = json.load(f)
+                found.append((v["signature"], v["message"], v["case"], p.name))
+            elif pr.returncode not in (0, 3):
+                notes.append(f"fuzz {p.name}: process exit {pr.returncode}")
+    finally:
+        shutil.rmtree(root, ignore_errors=True)
+    return ev, found, notes
+
+
+# --------------------------------------------------------------------------------------
 def load_known(prop):
     path = os.path.join(HERE, "known_findings.json")
     if not os.path.exists(path):
@@ -483,6 +536,16 @@ def main(argv=None):
             if sig not in found or len(canon(case)) < len(canon(found[sig][1])):
                 found[sig] = (msg, case, pname, None)
 
+    # ---- coverage-guided campaigns (thorough tier only) ----
+    fuzz_ev = None
+    if not args.part or True:
+        fuzz_ev, ffound, fnotes = run_fuzz(prop, parts, args.tier, seed, nproc, args.scale)
+        for sig, msg, case, pname in ffound:
+            if sig not in found or len(canon(case)) < len(canon(found[sig][1])):
+                found[sig] = (msg, case, pname, None)
+        for n in fnotes:
+            print(f"  note: {n}")
+
     # ---- evidence ----
     wall = time.time() - t0
     ev_parts = {}
@@ -523,6 +586,7 @@ def main(argv=None):
             "exhaustive": False,
             "enumerated": sorted(k for k, v in ev_parts.items() if v["exhaustive"]),
             "processes": nproc,
+            "coverage_guided": fuzz_ev or {},
         },
         "assumptions": list(getattr(mod, "ASSUMPTIONS", [])),
         "wall_s": round(wall, 2),
@@ -544,6 +608,9 @@ def main(argv=None):
         low = [k for k, v in e["classes"].items() if k.startswith("!") and v < 0.05 * max(1, e["evaluations"])]
         for k in low:
             print(f"    WARNING: class {k} below 5% of cases ({e['classes'][k]})")
+    for name, e in (fuzz_ev or {}).items():
+        if isinstance(e, dict):
+            print(f"  fuzz {name}: executions={e.get('executions')} processes={e.get('processes')} corpus={e.get('corpus_files')}")
     for e in known_entries:
         if e.get("status") == "known":
             print(f"KNOWN-FINDING: property={prop} {e.get('what', e['signature'])} "
